@@ -54,19 +54,21 @@ def build_scenario(s):
     scan = {"none": None, "custom": abtem.CustomScan(np.array([[1.0, 1.5], [2.5, 0.5], [0.2, 3.3]])),
             "line": abtem.LineScan(start=(0.5, 0.5), end=(3.0, 2.0), gpts=4, endpoint=False),
             "grid": abtem.GridScan(start=(0, 0), end=(2.0, 3.0), gpts=(2, 3)),
-            "grid_uneven": abtem.GridScan(start=(0.3, 0.1), end=(1.1, 3.7), gpts=(2, 8))}[s["scan"]]
+            "grid_uneven": abtem.GridScan(start=(0.3, 0.1), end=(1.1, 3.7), gpts=(2, 8)),
+            "grid_mixed_endpoint": abtem.GridScan(start=(0.3, 0.1), end=(2.7, 3.3), gpts=(3, 4), endpoint=(True, False))}[s["scan"]]
+    tilt = {"none": (0.0, 0.0), "y_series": (0.0, [0.0, 6.0, 12.0]), "x_scalar_y_series": (3.0, [0.0, 4.0, -2.0])}[s.get("tilt", "none")]
 
     def run(lazy, max_batch):
         with warnings.catch_warnings():
             warnings.simplefilter("ignore")
             if s["builder"] == "plane":
-                w = abtem.PlaneWave(energy=100e3)
+                w = abtem.PlaneWave(energy=100e3, tilt=tilt)
                 if s["ctf"]:
                     res = w.multislice(pot, lazy=lazy, max_batch=max_batch)
                     res = res.apply_ctf(abtem.CTF(defocus=40, semiangle_cutoff=25))
                     return res if det is None else det.detect(res)
                 return w.multislice(pot, detectors=det, lazy=lazy, max_batch=max_batch)
-            p = abtem.Probe(energy=100e3, semiangle_cutoff=25, defocus=20)
+            p = abtem.Probe(energy=100e3, semiangle_cutoff=25, defocus=20, tilt=tilt)
             if s["ctf"]:
                 res = p.multislice(pot, scan=scan, lazy=lazy, max_batch=max_batch)
                 res = res.apply_ctf(abtem.CTF(Cs=1e5, semiangle_cutoff=20))
@@ -173,7 +175,7 @@ def run(ctx: Ctx):
     quick = ctx.tier == "quick"
     ctx.rule = ("scenarios = builder x potential kind (atoms, frozen phonons with/without mean, atoms ensemble, crystal potential, built "
                 "array) x exit planes (none, int, tuple) x detector set (waves, annular, flexible annular, segmented, pixelated, two "
-                "detectors) x scan (none, custom, line, 2x3 grid, 2x8 grid) x CTF application, pruned by Pipeline!Valid, enumerated by TLC; each run "
+                "detectors) x scan (none, custom, line, 2x3 grid, 2x8 grid, 3x4 grid with endpoint (True, False)) x builder tilt (none, series along y, scalar x with series along y) x CTF application, pruned by Pipeline!Valid, enumerated by TLC; each run "
                 "eagerly and lazily for max_batch {1, 3, 6, auto} x scheduler {synchronous, threads}; non-trivial = every scenario")
     ctx.design_check("PipelineModel", "PipelineSched.cfg", label="schedule confluence (4 blocks, 3 workers)")
     r = ctx.design_check("PipelineModel", "PipelineScn.cfg", label="scenario enumeration", workers=1)
@@ -187,7 +189,7 @@ def run(ctx: Ctx):
         # one scenario of every (builder, scan, potential) stratum at every seed, then the seeded remainder
         seen, first, rest = set(), [], []
         for c in cases:
-            k = (c["builder"], c["scan"], c["potential"])
+            k = (c["builder"], c["scan"], c["potential"], c.get("tilt", "none"))
             (rest if k in seen else first).append(c)
             seen.add(k)
         cases = first + rest[:8]
